@@ -5,6 +5,7 @@ package main
 
 import (
 	"fmt"
+	"io/ioutil"
 	"os"
 	"path/filepath"
 	"strings"
@@ -17,6 +18,14 @@ func init() {
 	for _, p := range []string{"c04", "c05", "c06", "c08", "c09", "c10", "c16"} {
 		p := p
 		props[p] = func(c *ctx) error { return runStack(c, p) }
+	}
+	// C05 also on Additions whose tables span several update indices: a later table of the same
+	// Addition that starts inside the span of an earlier one must not reach tables.list
+	props["c05"] = func(c *ctx) error {
+		if err := runStack(c, "c05"); err != nil {
+			return err
+		}
+		return spanAdditions(c)
 	}
 	// C16 also over sequential histories of real transactions (deletions, compactions whose result
 	// is empty, expiry, refused transactions): the directory listing at every idle point
@@ -409,5 +418,62 @@ func runStack(c *ctx, which string) error {
 		}
 	}
 	c.stats["executions_by_scenario"] = hist
+	return nil
+}
+
+// spanAdditions: base table, then one Addition of two tables: the first with limits [n, n+k], the
+// second with limits [n+off, n+off] (off <= k: inside the span, must be refused; off = k+1: legal);
+// Commit whatever the Adds answered.  Reported: the ranges named by tables.list (judged by the
+// extracted Compact.ranges_ok) and whether a fresh NewStack opens the directory.
+func spanAdditions(c *ctx) error {
+	for k := 1; k <= 3; k++ {
+		for off := 1; off <= k+1; off++ {
+			dir, err := ioutil.TempDir(c.work, "span")
+			if err != nil {
+				return err
+			}
+			cfg := reftable.Config{}
+			st, err := reftable.NewStack(dir, cfg)
+			if err != nil {
+				return err
+			}
+			reftable.VerifSetAutoCompact(st, false)
+			one := func(name string, lo, hi uint64) func(w *reftable.Writer) error {
+				return func(w *reftable.Writer) error {
+					w.SetLimits(lo, hi)
+					return w.AddRef(&reftable.RefRecord{RefName: name, UpdateIndex: lo, Value: make([]byte, 20)})
+				}
+			}
+			n := st.NextUpdateIndex()
+			if err := st.Add(one("refs/heads/base", n, n)); err != nil {
+				return err
+			}
+			n = st.NextUpdateIndex()
+			tr, err := st.NewAddition()
+			if err != nil {
+				return err
+			}
+			tr.Add(one("refs/heads/a", n, n+uint64(k)))
+			tr.Add(one("refs/heads/b", n+uint64(off), n+uint64(off)))
+			tr.Commit()
+			tr.Close()
+			st.Close()
+			var ranges []string
+			for _, nm := range readList(dir) {
+				var min, max uint64
+				var rnd string
+				fmt.Sscanf(nm, "0x%012x-0x%012x-%s", &min, &max, &rnd)
+				ranges = append(ranges, fmt.Sprintf("%d-%d", min, max))
+			}
+			res := "open=ok"
+			if st2, err := reftable.NewStack(dir, cfg); err != nil {
+				res = "open=err"
+			} else {
+				st2.Close()
+			}
+			c.emit("listorder", strings.Join(ranges, ","), res)
+			os.RemoveAll(dir)
+		}
+	}
 	return nil
 }
